@@ -28,8 +28,14 @@ THEOREMS = [
              "transitions fails; in canceled that same failure makes the handler's own fail request be refused -- the one "
              "documented refusal that can escape, shown on a hand-made state), and nothing is offered as a consequence (the "
              "targets are staged, never offered)"},
-    {"name": "(tested, not proved) late reports of with-items tasks and of tasks with engine-command targets",
-     "strength": "T", "text": "monitor c04 on every generated history"},
+    {"name": "C04d_late_report_absorbed / C04d_command_on_done_workflow / C04d_late_item_report_absorbed / "
+             "C04d_last_item_completes / C04d_item_with_others_out (props/C04d.v)", "strength": "P",
+     "text": "the same without the two restrictions: tasks with engine-command targets (the nested command call on a done "
+             "workflow appends one record -- succeeded for noop/continue, failed for fail -- and never moves the workflow "
+             "status, not even fail on a succeeded workflow) and item reports of with-items tasks (absorbed, the item table "
+             "updated, the task completes when the last item reports), under decidable side conditions (command targets are "
+             "nodes, their routes distinct and unvisited; the machine's answer for the item is not an unused status)"},
+    {"name": "(tested) monitor c04 on every generated history", "strength": "T", "text": "the same clauses on the engine"},
 ]
 TRUSTED_BASE = common.TRUSTED_BASE_COMMON + [
     "facts F_wf_failed_final, F_wf_canceled_final, F_wf_succeeded_only_failed, F_wf_cancel_closed are "
